@@ -113,6 +113,8 @@ let handle toks =
   | ["unwrap_legacy"; k; s] -> res (fun (h, key) -> show_header h ^ " " ^ show key) (x_unwrap_legacy (lst k) (lst s))
   | ["unwrap_clear"; k; s] -> res show (x_unwrap_clear (lst k) (lst s))
   | ["wrap_str"; k; h; key; m; t] -> res show (x_wrap_str (lst k) (lst h) (lst key) (optz m) (lst t))
+  | ["new_header"; v; ku; alg; mou; vn; ex] ->
+      res show_header (x_new_header (lst v) (lst ku) (lst alg) (lst mou) (lst vn) (lst ex))
   | "run" :: k :: ops ->
       let hops = List.map (parse_hop_with parse_op) ops in
       let (st, outs) = List.fold_left (fun (st, outs) h ->
